@@ -73,7 +73,9 @@ class Printer:
     def fill(self):
         """inside a (?x: group: white space or a comment, which flex must ignore"""
         if self.x > 0 and self.rng.random() < 0.45:
-            return self.rng.choice([' ', '  ', '\t', ' /* c */ ', '/**/', ' ', '\n  '])
+            f = self.rng.choice([' ', '  ', '\t', ' /* c */ ', '/**/', ' ', '\n  '])
+            # (a definition ends with its line: no newline filler inside one)
+            return ' ' if getattr(self, 'in_def', 0) and '\n' in f else f
         return ''
 
     def esc_char(self, c, in_class=False, in_str=False):
@@ -178,7 +180,9 @@ class Printer:
             name, a = p[1], p[2]
             if name not in self.defs:
                 x, self.x = self.x, 0
+                self.in_def = getattr(self, 'in_def', 0) + 1
                 self.defs[name] = self.pr(a, 0)
+                self.in_def -= 1
                 self.x = x
             return '{' + name + '}'
         raise ValueError(k)
